@@ -4,6 +4,7 @@ package interp
 // function-level state merging for side-effect-free callees, obligations.
 
 import (
+	"crypto/sha1"
 	"fmt"
 	"go/token"
 	"go/types"
@@ -124,7 +125,7 @@ type Exec struct {
 	FnSeen       map[string]int
 	Reached      map[string]int
 	Unsupp       []string
-	Stats        struct{ Branches, FeasQueries, Summaries, SummaryAborts, MergedPaths, SplitLeaves int }
+	Stats        struct{ Branches, FeasQueries, Summaries, SummaryAborts, MergedPaths, SplitLeaves, FeasCacheHits int }
 	pathEvents   []string
 
 	// scheduler
@@ -137,6 +138,8 @@ type Exec struct {
 	track *writeTracker
 
 	symbolicSeen bool
+	feasCache    map[[20]byte]bool
+	InitSecs     float64
 	monoUnknown  int
 	NeedCase     *NeedCase
 	Tier         int // 0 quick, 1 thorough
@@ -158,7 +161,7 @@ func NewExec(i *interpreter, solver *smt.Portfolio) *Exec {
 		Prune: true, Merge: true, QuickMs: 3000, FullMs: 20000, FeasMs: 1500,
 		MaxPaths: 20000, MaxBranch: 4000, MaxSummary: 512, SplitFirstMs: 0, SplitLeafMs: 4000, MaxSplitLeaves: 600,
 		DomainEvents: map[string]int{}, Notes: map[string][]string{}, FnSeen: map[string]int{},
-		Reached: map[string]int{}, Cases: map[string]int64{}}
+		Reached: map[string]int{}, Cases: map[string]int64{}, feasCache: map[[20]byte]bool{}}
 	return ex
 }
 
@@ -338,12 +341,36 @@ func (ex *Exec) querySplit(extra *smt.Term, wantModel bool) smt.Result {
 
 // feasible: is pc ∧ cond satisfiable? unknown counts as feasible.
 func (ex *Exec) feasible(cond *smt.Term) bool {
+	// syntactic shortcuts
+	neg := ex.C.Not(cond)
+	for _, p := range ex.pc {
+		if p == cond {
+			return true
+		}
+		if p == neg {
+			return false
+		}
+	}
+	roots := make([]*smt.Term, 0, len(ex.pc)+len(ex.defs)+1)
+	roots = append(roots, ex.defs...)
+	roots = append(roots, ex.pc...)
+	roots = append(roots, cond)
+	script := ex.C.Script(roots, nil)
+	key := sha1.Sum([]byte(script))
+	if v, ok := ex.feasCache[key]; ok {
+		ex.Stats.FeasCacheHits++
+		return v
+	}
 	ex.Stats.FeasQueries++
-	r := ex.query(cond, false, ex.FeasMs, 0)
+	r := ex.Solver.Solve(script, nil, ex.FeasMs, 0)
 	if r.Status == "error" {
 		panic(Unsupported{"solver error in feasibility query: " + r.Err})
 	}
-	return r.Status != "unsat"
+	res := r.Status != "unsat"
+	if r.Status != "unknown" {
+		ex.feasCache[key] = res
+	}
+	return res
 }
 
 // truth resolves a branch condition, forking when it is symbolic.
@@ -915,6 +942,9 @@ func (ex *Exec) RunHarness(fn *ssa.Function) {
 		ex.newPath()
 		ex.Paths++
 		stop := ex.runPath(fn)
+		if os.Getenv("VERIF_DEBUG") != "" {
+			fmt.Fprintf(os.Stderr, "path %d: decisions=%d pc=%d obls=%d init=%.2fs total=%.2fs feasq=%d unsupp=%v\n", ex.Paths, len(ex.glob.d), len(ex.pc), len(ex.Obls), ex.InitSecs, time.Since(ex.startT).Seconds(), ex.Stats.FeasQueries, ex.Unsupp)
+		}
 		if stop {
 			break
 		}
@@ -984,7 +1014,9 @@ func (ex *Exec) runPath(fn *ssa.Function) (stop bool) {
 			stop = true
 		}
 	}()
+	tI := time.Now()
 	ex.I.initGlobals()
+	ex.InitSecs += time.Since(tI).Seconds()
 	ex.sched.runMain(func() {
 		call(ex.I, nil, token.NoPos, fn, nil)
 	})
